@@ -564,17 +564,21 @@ fn cold_run(seed: u64, run: u64, pool: &crate::world::KeyPool<V512>) -> RunOutco
                 let _deep = crate::deep::install(&h);
                 let mut v = Vec::new();
                 for (pkb, m, sg, _) in items.iter() {
+                    // two operations per item, each with its own aligned start: decoding, then verify
                     h.boundary();
-                    v.push(guarded(|| match (V512::pk_from_bytes(pkb), V512::sig_from_bytes(sg)) {
-                        (Ok(pk), Ok(s)) => V512::verify(m, &s, &pk),
-                        _ => false,
-                    }));
+                    let decoded = guarded(|| (V512::pk_from_bytes(pkb), V512::sig_from_bytes(sg)));
+                    h.boundary();
+                    v.push(match decoded {
+                        Ok((Ok(pk), Ok(s))) => guarded(|| V512::verify(m, &s, &pk)),
+                        Ok(_) => Ok(false),
+                        Err(u) => Err(u),
+                    });
                 }
                 v
             }) as Box<dyn FnOnce(std::rc::Rc<crate::sched::Handle>) -> Out + Send>
         })
         .collect();
-    let opts = crate::sched::SchedOpts { align: true, dense_yields: *rng.pick(&[64u32, 256, 1024]), dense_exp: *rng.pick(&[1u32, 2, 3]) };
+    let opts = crate::sched::SchedOpts { align: true, dense_yields: *rng.pick(&[256u32, 1024, 4096, 16384]), dense_exp: *rng.pick(&[1u32, 2, 3, 4]) };
     let (res, sched) = crate::sched::run_threads_opts(rng.next_u64(), Some(*rng.pick(&[3u32, 5, 7])), 64, opts, bodies);
     if sched.free_running {
         out.stats.inc("inconclusive.schedule_infeasible");
@@ -614,6 +618,86 @@ fn cold_run(seed: u64, run: u64, pool: &crate::world::KeyPool<V512>) -> RunOutco
     out
 }
 
+/// child process entry: `falcon-sim c02-cold-child <pk hex> <msg hex> <sig hex> <threads>`: the process's
+/// very first library calls are `threads` verifications released together by a spin barrier (real
+/// parallelism: the one situation the baton scheduler cannot produce is two threads inside the same
+/// arithmetic loop at once). Prints the number of threads whose verdict was "reject".
+pub fn cold_child_main(args: &[String]) -> i32 {
+    let (pk, msg, sig) = match (args.get(0).and_then(|s| crate::rng::unhex(s)), args.get(1).and_then(|s| crate::rng::unhex(s)), args.get(2).and_then(|s| crate::rng::unhex(s))) {
+        (Some(a), Some(b), Some(c)) => (a, b, c),
+        _ => return 2,
+    };
+    let threads: usize = args.get(3).and_then(|s| s.parse().ok()).unwrap_or(16);
+    let go = std::sync::Arc::new(std::sync::atomic::AtomicBool::new(false));
+    let ready = std::sync::Arc::new(std::sync::atomic::AtomicUsize::new(0));
+    let hs: Vec<_> = (0..threads)
+        .map(|_| {
+            let (pk, msg, sig, go, ready) = (pk.clone(), msg.clone(), sig.clone(), go.clone(), ready.clone());
+            std::thread::spawn(move || {
+                ready.fetch_add(1, std::sync::atomic::Ordering::SeqCst);
+                while !go.load(std::sync::atomic::Ordering::Acquire) {
+                    std::hint::spin_loop();
+                }
+                guarded(|| match (V512::pk_from_bytes(&pk), V512::sig_from_bytes(&sig)) {
+                    (Ok(k), Ok(s)) => V512::verify(&msg, &s, &k),
+                    _ => false,
+                })
+            })
+        })
+        .collect();
+    while ready.load(std::sync::atomic::Ordering::SeqCst) < threads {
+        std::thread::yield_now();
+    }
+    go.store(true, std::sync::atomic::Ordering::Release);
+    let mut rejected = 0;
+    let mut unwound = 0;
+    for h in hs {
+        match h.join() {
+            Ok(Ok(true)) => {}
+            Ok(Ok(false)) => rejected += 1,
+            _ => unwound += 1,
+        }
+    }
+    println!("COLD rejected={} unwound={}", rejected, unwound);
+    0
+}
+
+/// Real cold starts: `procs` fresh processes, each verifying one honest signature on 16 threads at once.
+fn cold_processes(seed: u64, procs: usize, pool: &crate::world::KeyPool<V512>) -> RunOutcome {
+    let mut rng = Prng::new(report::run_seed(seed, "C02coldproc", 0));
+    let mut out = RunOutcome::default();
+    out.stats.inc("runs");
+    out.stats.inc("runs.cold_start_processes");
+    let exe = match std::env::current_exe() {
+        Ok(e) => e,
+        Err(_) => return out,
+    };
+    for i in 0..procs {
+        let k = rng.pick(&pool.keys);
+        let (m, sg) = rng.pick(&k.sigs).clone();
+        let o = std::process::Command::new(&exe)
+            .args(["c02-cold-child", &crate::rng::hex(&k.pk_bytes), &crate::rng::hex(&m), &crate::rng::hex(&sg), "16"])
+            .stderr(std::process::Stdio::null())
+            .output();
+        let text = o.map(|o| String::from_utf8_lossy(&o.stdout).to_string()).unwrap_or_default();
+        out.stats.evaluations += 16;
+        out.stats.inc("fault.P1_fresh_process");
+        if let Some(l) = text.lines().find(|l| l.starts_with("COLD ")) {
+            if l != "COLD rejected=0 unwound=0" {
+                out.violations.push(Violation {
+                    property: PROP,
+                    class: "verify512 rejects what the specification accepts in a process that is just starting to use the library".into(),
+                    detail: format!("fresh process {} of {}, 16 threads verifying one honest signature at once: {}", i, procs, l),
+                    replay: json!({"kind": "cold-processes", "probabilistic": true, "seed": seed, "procs": procs}),
+                    run: (1 << 41) + 9000,
+                });
+                break;
+            }
+        }
+    }
+    out
+}
+
 fn deep_pool(seed: u64) -> crate::world::KeyPool<V512> {
     crate::world::KeyPool::build(report::run_seed(seed, "c02-deep-pool", 0), 6, 4, report::workers())
 }
@@ -646,6 +730,12 @@ pub fn deepruns_main(tier: Tier, seed: u64, outfile: &str) -> i32 {
 }
 
 pub fn replay(doc: &Value) -> Option<String> {
+    if doc.get("kind").and_then(|k| k.as_str()) == Some("cold-processes") {
+        let seed = doc.get("seed")?.as_u64()?;
+        let procs = doc.get("procs")?.as_u64()? as usize;
+        let pool = deep_pool(seed);
+        return cold_processes(seed, procs * 2, &pool).violations.first().map(|v| v.class.clone());
+    }
     if doc.get("kind").and_then(|k| k.as_str()) == Some("deep-rerun") {
         let seed = doc.get("seed")?.as_u64()?;
         let run = doc.get("run")?.as_u64()?;
@@ -738,6 +828,12 @@ pub fn check(tier: Tier, seed: u64) -> i32 {
     corpus(&mut rep);
     let out = report::parallel_runs(ctx.runs, w, |run| one_run(seed, run, &ctx.pools, &ctx.or, ctx.per_run));
     rep.absorb(out);
+    // real cold starts (fresh processes whose first calls are 16 simultaneous verifications)
+    {
+        let procs = if tier == Tier::Quick { 48 } else { 600 };
+        let o = cold_processes(seed, procs, &ctx.pools.p512);
+        rep.absorb(o);
+    }
     match crate::props::run_deep_batch(PROP, tier, seed) {
         Ok(Some(o)) => rep.absorb(o),
         Ok(None) => {
@@ -748,7 +844,7 @@ pub fn check(tier: Tier, seed: u64) -> i32 {
             return 2;
         }
     }
-    rep.rule = "a case is one (msg, sig, pk) triple delivered to a verifier node: fresh honest signatures, the same through bit flips / overwrites / splices / torn writes of signature or key, Byzantine exact-norm triples (Z1: norm = T chosen at, one below and one above floor(beta^2) of either variant, optionally with an s1 coordinate at +-6144), non-canonical re-encodings of those (Z2: negative zero, padding bit, 256/512/1024 extra unary zeros), grammar-aware crafted bodies, plus duplicated and reordered deliveries, cross-variant pairs (Z7), and a deep batch (instrumented build) in which 2-5 baton-scheduled threads, each mostly with its own public key, verify honest signatures under the right and under other keys, every verdict compared with SpecVerify's (a third of these runs are cold starts: the threads' first calls are the first calls of the process, side by side); non-trivial = both inputs decode and the compressed part is well-formed, so the verdict is decided by the norm test; distinct = distinct triples".into();
+    rep.rule = "a case is one (msg, sig, pk) triple delivered to a verifier node: fresh honest signatures, the same through bit flips / overwrites / splices / torn writes of signature or key, Byzantine exact-norm triples (Z1: norm = T chosen at, one below and one above floor(beta^2) of either variant, optionally with an s1 coordinate at +-6144), non-canonical re-encodings of those (Z2: negative zero, padding bit, 256/512/1024 extra unary zeros), grammar-aware crafted bodies, plus duplicated and reordered deliveries, cross-variant pairs (Z7), and a deep batch (instrumented build) in which 2-5 baton-scheduled threads, each mostly with its own public key, verify honest signatures under the right and under other keys, every verdict compared with SpecVerify's (plus 48 fresh processes whose first library calls are 16 real threads verifying one honest signature at once; a third of the deep runs are cold starts: the threads' first calls are the first calls of the process, side by side); non-trivial = both inputs decode and the compressed part is well-formed, so the verdict is decided by the norm test; distinct = distinct triples".into();
     rep.assumptions = vec![
         "SpecVerify (sim/src/reference/specverify.rs) implements Algorithms 16/3/18 of the specification; SHAKE-256 comes from the sha3 crate (trusted, cross-checked against PQClean's Keccak by C16)".into(),
         "public-key fields >= q, if the decoder accepts them, are reduced mod q on the reference side".into(),
